@@ -412,6 +412,7 @@ def run(c, prog):
     from . import C16 as _C16
     from sa import db as _dbm
     _C16.rule_sername(core.Alias(c, "C01"), prog, _dbm.Database())     # two canonical properties written under one name lose a value
+    common.rule_writer_total(c, prog, "C01.total", "binary")
     rule_codes(c, prog)
     rule_uid(c, prog)
     rule_sstr_index(c, prog)
